@@ -68,8 +68,20 @@ def main():
         for tag, d in (("with_change", A), ("without_change", B)):
             src = os.path.join(out_dir, demo)
             if os.path.exists(src) and demo.endswith("_test.go"):
+                os.makedirs(os.path.join(d, demo_pkg), exist_ok=True)
                 shutil.copy(src, os.path.join(d, demo_pkg, os.path.basename(demo)))
-                rc, o = sh("go test -vet=off -count=1 %s %s ./%s/" % (race, runflag, demo_pkg), cwd=d)
+                ov = ""
+                ovsrc = os.path.join(out_dir, "overlay.json")
+                if "-overlay" in demo_run and os.path.exists(ovsrc):
+                    # the agent's overlay (a Docker-less TestMain for internal/bgp/frr): re-target its absolute paths
+                    txt = open(ovsrc).read().replace("/tmp/seed-%s-out" % prop, "@@OUT@@")
+                    txt = txt.replace("/tmp/seed-%s" % prop, d)
+                    txt = txt.replace("@@OUT@@/%s" % os.path.basename(out_dir.rstrip("/")), out_dir.rstrip("/"))
+                    txt = txt.replace("@@OUT@@", os.path.dirname(out_dir.rstrip("/")))
+                    ovp = os.path.join("/tmp", "sv-overlay-%s-%s.json" % (name, tag))
+                    open(ovp, "w").write(txt)
+                    ov = "-overlay %s" % ovp
+                rc, o = sh("go test -vet=off -count=1 %s %s %s ./%s/" % (race, ov, runflag, demo_pkg), cwd=d, timeout=900)
             else:  # a program: run the command the agent gave, inside the worktree
                 cmd = demo_run.replace("/tmp/seed-%s" % prop, d)
                 rc, o = sh(cmd, cwd=d)
@@ -77,6 +89,10 @@ def main():
             res["demo_%s_tail" % tag] = o[-600:]
             if os.path.exists(os.path.join(d, demo_pkg, os.path.basename(demo))) and demo.endswith("_test.go"):
                 os.remove(os.path.join(d, demo_pkg, os.path.basename(demo)))
+                try:
+                    os.rmdir(os.path.join(d, demo_pkg))   # a directory created only for the demo
+                except OSError:
+                    pass
         res["confirmed"] = bool(res["builds"] and tests_ok and res.get("demo_with_change") == "fail" and res.get("demo_without_change") == "pass")
         # our checks against the changed tree
         res["checks"] = {}
